@@ -181,6 +181,9 @@ func New(sign int8, coef uint64, exp int) Dnum {
 			p := maxShift(coef)
 			coef *= pow10[p]
 			exp -= p
+			if exp < expMin {
+				return Zero // underflow (int8(exp) would wrap around)
+			}
 		}
 		if exp > expMax {
 			return Inf(sign)
